@@ -35,7 +35,7 @@ ASSUMPTIONS = [
     "LMDB backend over /verif/shim (judged after writer idle); SQL = SQLite",
 ]
 MIN_NONTRIVIAL = {"quick": 400, "thorough": 4000}
-REQUIRED_COUNTERS = ["clause.older_removed", "clause.newest_kept", "clause.frame", "clause.refused_version_frame", "clause.odd_d_tag", "clause.low_max_limit_steps"]
+REQUIRED_COUNTERS = ["clause.older_removed", "clause.newest_kept", "clause.frame", "clause.refused_version_frame", "clause.odd_d_tag", "clause.low_max_limit_steps", "clause.many_versions"]
 SHARD_TIMEOUT = {"quick": 500, "thorough": 3000}
 KINDS = [0, 3, 1, 10000, 19999, 30000, 39999]
 DVALS = [None, "BARE", "", "a", "ab", "abc", "é"]
@@ -145,6 +145,52 @@ def many_addresses_history(r):
     for j, i in enumerate(order[: n // 2]):
         evs.append(ref.make_event(k, kind=kind if kind >= 30000 else 10000 + i, created_at=gen.T0 + 100 + j, tags=[["d", "item-%02d" % i]] if kind >= 30000 else [], content="v2 %d" % i))
     return evs
+
+
+async def run_many_versions(backend, counters, seed):
+    """hundreds of older versions of ONE address (they arrived newest first, so each was kept) and then a newer
+    one: every older version goes, however many there are"""
+    import random as _r
+
+    r = _r.Random(seed)
+    rig = R.Rig(backend=backend, config={"analysis_delay": 0})
+    await rig.start()
+    viols, nontrivial = [], []
+    try:
+        conn = rig.connect("mv")
+        k = ref.key_from_seed("c09-many-%d" % seed)
+        kind = r.choice([10000, 30000, 30023])
+        n = r.choice([499, 500, 501, 1001, 1203])
+        tags = [["d", "slot"]] if kind >= 30000 else []
+        older = [ref.make_event(k, kind=kind, created_at=gen.T0 + 5000 - i, tags=tags, content="old %d %d" % (seed, i)) for i in range(n)]
+        other = ref.make_event(k, kind=kind + 1, created_at=gen.T0, tags=tags, content="other address %d" % seed)
+        for e in older + [other]:
+            conn.feed(["EVENT", e])
+        await conn.processed(timeout=300)
+        await rig.quiesce(timeout=300)
+        before = dump.stored_events(dump.dump(rig))
+        kept = [e for e in older if e["id"] in before]
+        newest = ref.make_event(k, kind=kind, created_at=gen.T0 + 9000, tags=tags, content="newest %d" % seed)
+        n0 = rig.rec.n
+        await conn.cmd(["EVENT", newest])
+        await rig.quiesce(timeout=300)
+        oks = R.ok_frames(conn, n0)
+        after = dump.stored_events(dump.dump(rig))
+        counters["steps"] = counters.get("steps", 0) + 1
+        counters.setdefault("clause", {})["many_versions"] = counters["clause"].get("many_versions", 0) + len(kept)
+        if oks and oks[-1][1][2] is True and len(kept) > 1:
+            nontrivial.append(h([backend, "many-versions", kind, n, len(kept)]))
+            left = [e for e in kept if e["id"] in after]
+            if left:
+                viols.append({"key": "%s/older-kept/%s/hundreds-of-older" % (backend, kclass(kind)),
+                              "msg": "[%s] %d older versions of one address were stored; after accepting a newer one %d of them are still there" % (backend, len(kept), len(left)),
+                              "replay": {"backend": backend, "mode": "many-versions", "seed": seed}})
+            if newest["id"] not in after or other["id"] not in after:
+                viols.append({"key": "%s/newest-lost/many-versions" % backend, "msg": "[%s] the newest version or the event of another address is gone" % backend,
+                              "replay": {"backend": backend, "mode": "many-versions", "seed": seed}})
+    finally:
+        await rig.close()
+    return viols, nontrivial
 
 
 def make_judge(backend, history, counters, viols, nontrivial):
@@ -274,6 +320,11 @@ def run_shard(spec):
     else:
         histories = [random_history(r, r.randint(15, 40)) for _ in range(spec["n"])]
     viols, nontrivial = R.run(run_many, spec["backend"], histories, counters, {"max_limit": 5} if spec["mode"] == "lowcap" else None)
+    if spec["mode"] == "random" and spec["case_seed"] % 3 == 0:
+        for j in range(2):
+            v2, nt2 = R.run(run_many_versions, spec["backend"], counters, spec["case_seed"] + j)
+            viols.extend(v2)
+            nontrivial.extend(nt2)
     seen, out = {}, []
     for v in viols:
         seen[v["key"]] = seen.get(v["key"], 0) + 1
@@ -289,5 +340,8 @@ def run_shard(spec):
 
 def replay(rp, spec):
     counters = {}
+    if rp.get("mode") == "many-versions":
+        v, nt = R.run(run_many_versions, rp["backend"], counters, rp["seed"])
+        return {"evaluations": 1, "nontrivial": nt, "counters": counters, "violations": v, "samples": [], "inconclusive": []}
     v, nt = R.run(run_history, rp["backend"], rp["history"], counters, rp.get("config"))
     return {"evaluations": len(rp["history"]), "nontrivial": nt, "counters": counters, "violations": v, "samples": [], "inconclusive": []}
